@@ -132,6 +132,31 @@ def run(chk):
             cq.fl(1e-9 * max(1.0, float(np.abs(X).max())) ** 2), ";\n  ".join(obs_t)))
         if i < 2:
             chk.sample({"C": C, "D": D, "ops": names})
+    # ---- training on a Dask array with workers that do not share memory with the caller (every task serialised), weights and variances
+    #      updated: afterwards the machine scores like a fresh machine with its visible parameters (the copy-back refreshed everything derived)
+    from .. import dasksched
+    from ..impl import da
+    for j in range(4 if chk.tier == "quick" else 60):
+        C, D = r.choice([2, 3]), r.choice([1, 2])
+        w, mu, var, s = gen.gen_gmm(r, C, D, "unit")
+        X = gen.sample_from(r, w, mu + 0.5 * s, var, 12)
+        probe = gen.sample_from(r, w, mu, var, 4)
+        mi = make_gmm(w, mu, var, max_fitting_steps=r.choice([1, 2]), convergence_threshold=None)
+        mi.update_means, mi.update_variances, mi.update_weights = True, bool(j % 2 == 0), True
+        try:
+            dasksched.run_under(11 + j, True, lambda: mi.fit(da.from_array(X, chunks=((5, 7), (D,)))))
+        except Exception as e:
+            chk.fail("GMM training on a Dask array with serialised tasks raises %r" % (e,), {"X": hexlist(X)})
+            continue
+        fresh = GMMMachine(n_gaussians=C, weights=np.array(mi.weights))
+        fresh.means = np.array(mi.means)
+        fresh.variance_thresholds = 0.0
+        fresh.variances = np.array(mi.variances)
+        chk.count(1, key=("after Dask training with serialised tasks", bool(j % 2 == 0)))
+        if not np.allclose(np.asarray(mi.log_likelihood(probe)), np.asarray(fresh.log_likelihood(probe)), rtol=1e-12, atol=1e-12):
+            chk.fail("after training on a Dask array with serialised tasks (weights%s updated) the machine scores %s but a fresh machine with the same visible parameters scores %s"
+                     % (" and variances" if j % 2 == 0 else "", np.asarray(mi.log_likelihood(probe)).tolist(), np.asarray(fresh.log_likelihood(probe)).tolist()),
+                     {"w": hexlist(w), "mu": hexlist(mu), "var": hexlist(var), "X": hexlist(X), "probe": hexlist(probe), "history": "fit(dask array) under a serialising scheduler"})
     # ---- a weight set to exactly 0 (a pruned component) on a machine that held a positive weight there: the component no longer contributes.
     #      Oracle computed by hand (a fresh machine has held the constructor's 1/K in that slot, so it has the same history).
     for j in range(8 if chk.tier == "quick" else 300):
